@@ -424,6 +424,8 @@ type c12Proposal struct {
 	term    uint64
 	errText string
 	ackTerm uint64 // term of the acknowledging node when the future resolved
+	// where the proposing node itself appended the command as leader (0 = never seen in its log)
+	localIdx, localTerm uint64
 }
 
 type c12CrashSignal struct{ node multiraft.NodeID }
@@ -717,6 +719,16 @@ func (in *c12Inst) settle() {
 
 func (in *c12Inst) pollFutures() {
 	for _, p := range in.proposals {
+		if p.state == c12Pending && p.localIdx == 0 {
+			st := in.nodes[p.node].stores[p.slot]
+			first, _ := st.inner.FirstIndex(context.Background())
+			last, _ := st.inner.LastIndex(context.Background())
+			for _, e := range st.entries(first, last+1) {
+				if e.Type == raftpb.EntryNormal && string(e.Data) == string(c12Payload(p.label)) {
+					p.localIdx, p.localTerm = e.Index, e.Term
+				}
+			}
+		}
 		if p.state != c12Pending || !p.obs.Done {
 			continue
 		}
@@ -747,6 +759,11 @@ func (in *c12Inst) pollFutures() {
 		in.note("fut %s acked (%d,%d)", p.label, res.Index, res.Term)
 		sm := in.nodes[p.node].sms[p.slot]
 		got, ok := sm.find(res.Index)
+		if p.localIdx == res.Index && p.localTerm != res.Term && (!ok || got.Data != p.label) {
+			// the node appended the command itself as leader of term localTerm; that entry was
+			// overwritten, and the future was completed by the entry another leader put there
+			in.violate("C12:stale-future-completed-by-foreign-entry-of-later-term", "proposal %q was appended by node %d slot %d at (index %d, term %d) and never committed; its future was reported committed at index %d term %d with result %q when the entry of a later leader (%q) was applied there", p.label, p.node, p.slot, p.localIdx, p.localTerm, res.Index, res.Term, res.Data, got.Data)
+		}
 		if in.status(p.node, p.slot).Role != multiraft.RoleLeader && (!ok || got.Data != p.label) {
 			// the acknowledging node is a follower: it forwarded the proposal (MsgProp) and bound the
 			// future to the next data entry it received from the leader
